@@ -35,12 +35,28 @@ def run(ctx, rep):
     image_new(prog, rep)
     pixel_and_draw(prog, rep)
     contiguous_count(prog, rep)
+    stream_layout(prog, rep)
     from rules import c01 as _c01
     _c01.image_paths(prog, rep)     # R01.5: Image::draw / ImageRaw::draw wiring on every path (whole-image path fills its own box)
     from rules import axis
     axis.run_for(prog, rep, 'R09.5', ['src/image'], 'image data is addressed as row * width + column and sub images are cut per axis')
     import witness
     witness.check(rep, "W09", ["W09Short", "W09Long", "W09Exact"])
+
+
+def stream_layout(prog, rep):
+    """R09.6 which raw item the image's colour stream emits for which (column, row): the potential-function rule of
+    rules/streams.py on ContiguousPixels::next / new (item (c, r) = raw item initial_skip + r * (width + row_skip) + c)."""
+    from rules import c03
+    try:
+        # consumed so far, up to a constant: -(remaining_y * (width + row_skip) + remaining_x); a row change happens at
+        # remaining_x = 0
+        c03.stream_position(prog, rep, "R09.6", "ContiguousPixels::next:position", CP,
+                            {"remaining_x": "rx", "remaining_y": "ry", "width": "w", "row_skip": "k"},
+                            lambda st: Poly() - st["ry"] * (st["w"] + st["k"]) - st["rx"], ("rx", 0, "le"), check_ret=False)   # the returned colour: R09.4
+    except Exception as e:
+        import traceback; traceback.print_exc()
+        rep.fail("R09.6", "engine", "stream layout analysis crashed: %r" % (e,), status="undecided")
 
 
 def sub_image(prog, rep):
